@@ -97,6 +97,9 @@ func (verifC08SigExists) Has(sig [64]byte) (bool, error) {
 	return false, errVerifC08IO
 }
 
+// verifC08GsfaFound, when set (C08.gsfa), supplies walks that found transactions.
+var verifC08GsfaFound func(fetcher func(uint64, linkedlog.OffsetAndSizeAndSlot) (*ipldbindcode.Transaction, error)) (gsfa.EpochToTransactionObjects, error)
+
 // gsfa walk over the loaded epochs (the call in handleGetSignaturesForAddress is rewritten to
 // this function): an error, no transactions, or the fetcher's own failure.
 func verifC08GetBeforeUntil(
@@ -109,6 +112,9 @@ func verifC08GetBeforeUntil(
 	fetcher func(uint64, linkedlog.OffsetAndSizeAndSlot) (*ipldbindcode.Transaction, error),
 ) (gsfa.EpochToTransactionObjects, error) {
 	verifAssert(g != nil && limit >= 1, "C08.dispatch: gsfa walk started without a reader / with a non-positive limit")
+	if verifC08GsfaFound != nil {
+		return verifC08GsfaFound(fetcher)
+	}
 	switch verifChoice("GetBeforeUntil", 4) {
 	case 0:
 		return nil, errVerifC08IO
